@@ -344,7 +344,9 @@ func runC12Keys(c *Ctx) {
 		return
 	}
 	used := map[string]bool{}
-	// every call site in RuleExpression that passes a workflow key: functions with a parameter named workflowKey
+	// every call site that passes a workflow key: the parameters that are handed on, unchanged, to WorkflowKeyAvailability
+	// (found by use, not by the name workflowKey)
+	keyRole := p.roleParams(wka.Params[0])
 	occ := map[string]int{}
 	for _, fn := range p.Funcs {
 		eachInstr(fn, func(_ *ssa.BasicBlock, _ int, in ssa.Instruction) {
@@ -357,15 +359,7 @@ func runC12Keys(c *Ctx) {
 				return
 			}
 			var idxs []int
-			if g == wka {
-				idxs = []int{0}
-			} else {
-				for i, prm := range g.Params {
-					if prm.Name() == "workflowKey" {
-						idxs = append(idxs, i)
-					}
-				}
-			}
+			idxs = paramIndexIn(g, keyRole)
 			for _, i := range idxs {
 				if i >= len(call.Common().Args) {
 					continue
@@ -481,6 +475,13 @@ func runC12Map(c *Ctx) {
 		return
 	}
 	occ := map[string]int{}
+	var keyRole map[*ssa.Parameter]bool
+	if wka := p.Func("WorkflowKeyAvailability"); wka != nil {
+		keyRole = p.roleParams(wka.Params[0])
+	} else {
+		c.anchorMissing("WorkflowKeyAvailability")
+		return
+	}
 	for _, fn := range p.Funcs {
 		recv := fn.Signature.Recv()
 		if recv == nil || pointeeName(recv.Type()) != "RuleExpression" {
@@ -496,10 +497,8 @@ func runC12Map(c *Ctx) {
 				return
 			}
 			ki := -1
-			for i, prm := range g.Params {
-				if prm.Name() == "workflowKey" {
-					ki = i
-				}
+			for _, i := range paramIndexIn(g, keyRole) {
+				ki = i
 			}
 			if ki < 0 || ki >= len(call.Common().Args) {
 				return
